@@ -238,8 +238,6 @@ Qed.
 
 (* ICMPv6: icmp6SendPacket builds psh = src(16) ++ dst(16) ++ be32(len b) ++ [0;0;0;58] ++ b
    and stores Checksum(psh) into b[2:4] (field zero beforehand). *)
-Definition icmp6_pseudo (src dst : bytes) (n : N) : bytes :=
-  src ++ dst ++ [u8 (N.shiftr n 24); u8 (N.shiftr n 16); u8 (N.shiftr n 8); u8 n] ++ [0; 0; 0; 58].
 
 Theorem icmp6_verifies src dst p :
   bytes_ok src -> bytes_ok dst -> bytes_ok p ->
